@@ -491,6 +491,13 @@ func c08Directed(u *universe) []c08Harness {
 		// the same caller-chosen upload ID opened for the first time by several threads at once
 		c08Harness{Name: "H11-first-use-of-one-upload-id-by-two-threads", Prologue: c08Seed, Oracle: "one-session-per-id", Threads: [][]cOp{startX(), startX()}},
 	)
+	// a referrers listing obtained and consumed while the referrer is deleted and pushed again
+	digM0 = string(sha256Digest(u.Manifests[0].Data))
+	refPro := []Op{{K: "PushBlob", Repo: "r", B: 1}, {K: "PushManifest", Repo: "r", M: 0}, {K: "PushManifest", Repo: "r", M: 2}}
+	hs = append(hs, c08Harness{Name: "H13-referrers-listing-vs-delete-and-repush-of-the-referrer", Prologue: refPro, Threads: [][]cOp{
+		{{Q: qp(Query{K: "Referrers", Repo: "r", Dig: digM0, What: "mo"})}, {Q: qp(Query{K: "Referrers", Repo: "r", Dig: digM0, What: "mo"})}},
+		{{Op: op(Op{K: "DeleteManifest", Repo: "r", M: 2})}, {Op: op(Op{K: "PushManifest", Repo: "r", M: 2})}},
+	}})
 	for _, k := range []int{1, 3} {
 		hs = append(hs, c08Harness{Name: fmt.Sprintf("H12-two-writes-through-one-client-writer/min-chunk-%d", k), Oracle: "one-client-writer", MinChunk: k,
 			Prologue: []Op{{K: "Start", Repo: "r"}}, Threads: [][]cOp{
